@@ -18,6 +18,8 @@ RULE = ("every labelled graph of G(n) x weighting x each of the 5 MPI entry poin
 def builds():
     return vlib.build_many([
         dict(name="sched_mpi", src="sched_mpi.cpp", shim_first=[VMPI, VTBB], libs=("-lboost_timer", "-lboost_serialization", "-lpthread")),
+        dict(name="sched_mpi_cfg_log", src="sched_mpi.cpp", shim_first=[VMPI, VTBB], libs=("-lboost_timer", "-lboost_serialization", "-lpthread"), cfg=vlib.gen_config(logging=True)),
+        dict(name="sched_mpi_cfg_noinv", src="sched_mpi.cpp", shim_first=[VMPI, VTBB], libs=("-lboost_timer", "-lboost_serialization", "-lpthread"), cfg=vlib.gen_config(invariants=False)),
         dict(name="mpi_conf_model", src=os.path.join(vlib.VERIF, "conformance", "mpi_conf.cpp"), flags=["-std=c++14", "-O1", "-w", "-DCONF_VMPI"], shim_first=[VMPI, VTBB],
              libs=("-lboost_timer", "-lboost_serialization", "-lpthread")),
         dict(name="mpi_conf_real", src=os.path.join(vlib.VERIF, "conformance", "mpi_conf.cpp"), flags=["-std=c++14", "-O1", "-w"], includes=MPI_INC, libs=MPI_LIBS),
@@ -90,6 +92,8 @@ def run(tier):
                 ("sub-communicators (the entry points take a communicator, not the world): world split by rank parity, P in {2,3,4}, and every rank alone in its own communicator, P in {2,3}: G(4) x A2, bound 1; K6 x A2, mcb_sva_signed_mpi, P=4 split by parity",
                  [["--n", 4, "--alpha", "A2", "--P", "2,3,4", "--bound", 1, "--subcomm", 1], ["--n", 4, "--alpha", "A2", "--P", "2,3", "--bound", 1, "--subcomm", 2],
                   ["--families", "K:6", "--alpha", "A2", "--P", "4", "--variants", "signed_mpi", "--bound", 0, "--wchunks", 64, "--outcome-bound", 0, "--subcomm", 1]]),
+                ("other build configurations of the library (PARMCB_LOGGING on / PARMCB_INVARIANTS_CHECK off): G(4) x A2, P in {2,3}, default schedule and layouts",
+                 [["@sched_mpi_cfg_log", "--n", 4, "--alpha", "A2", "--P", "2,3", "--bound", 0], ["@sched_mpi_cfg_noinv", "--n", 4, "--alpha", "A2", "--P", "2,3", "--bound", 0]]),
                 ("K6 x A2 (32768 weightings; dense branch |S| >= n, ranks with empty slices), mcb_sva_signed_mpi, P=4, default outcome",
                  [["--families", "K:6", "--alpha", "A2", "--P", "4", "--variants", "signed_mpi", "--bound", 0, "--wchunks", 64, "--outcome-bound", 0]])]
     plan = quick_rows()
@@ -121,8 +125,11 @@ def run(tier):
             dl = c.remaining(20)
             if budget is not None:
                 dl = max(20, min(dl, budget - (vlib.time.time() - t_row)))
-            r = vlib.run_harness(ex, list(args) + ["--seed", vlib.seed(), "--deadline-s", int(dl)])
-            c.add_run(r, bound + " :: " + r["args"], None, replay={"harness": "sched_mpi"})
+            hname = "sched_mpi"
+            if args and str(args[0]).startswith("@"):
+                hname, args = args[0][1:], args[1:]
+            r = vlib.run_harness(b[hname], list(args) + ["--seed", vlib.seed(), "--deadline-s", int(dl)])
+            c.add_run(r, bound + " :: " + r["args"], None, replay={"harness": hname})
             for k in ("reduce_max_outcomes", "inputs_hitting_execution_cap", "deadlock_states"):
                 c.extra[k] = max(c.extra.get(k, 0), r.get(k, 0))
             for k in ("collectives_executed", "executions_with_nonidentity_layout", "reduce_multi_outcome_calls"):
@@ -133,7 +140,8 @@ def run(tier):
 def replay(path):
     rp = vlib.load_replay(path)
     b = builds()
-    p = subprocess.run([b["sched_mpi"], "--replay-case", rp["case"]], stdout=subprocess.PIPE, stderr=subprocess.STDOUT, text=True)
+    h = (rp.get("replay") or {}).get("harness", "sched_mpi")
+    p = subprocess.run([b[h if h in b else "sched_mpi"], "--replay-case", rp["case"]], stdout=subprocess.PIPE, stderr=subprocess.STDOUT, text=True)
     print(p.stdout[-3000:])
     if "REPLAY-VIOLATION" in p.stdout:
         print("VIOLATION property=C04 replay=%s" % path)
